@@ -165,7 +165,7 @@ def check_c11(out, tier, seed):
     from . import core as c, tlc
     wd = tlc.workdir("cells")
     cfg = ("SPECIFICATION Spec\nCONSTANT SLen = 3\nCONSTRAINT Emit\nINVARIANT SwapSym\nINVARIANT InvSym\n"
-           "INVARIANT Shape\nCHECK_DEADLOCK FALSE\n")
+           "INVARIANT Shape\nINVARIANT KindAgrees\nCHECK_DEADLOCK FALSE\n")
     rc, o = tlc.run_tlc("MC_EdgeCells", cfg, wd, workers=4)
     tlc.check_ok(rc, o, "MC_EdgeCells")
     st = tlc.stats(o)
@@ -246,6 +246,16 @@ def check_c11(out, tier, seed):
     for cat in ("gfa1", "gfa2"):
         jobs2["doc-" + cat] = c.doc_jobs(cat, 100 if tier == "quick" else 2000, 4, seed)
     c.run_pipeline(out, jobs2, [("gfa2s", 3)] if tier == "quick" else [("gfa2s", 4), ("gfa1s", 4)], "C11")
+    import shutil, subprocess, os
+    if shutil.which("apalache-mc"):
+        awd = tlc.workdir("apalache-edgeclass")
+        pr = subprocess.run(["apalache-mc", "check", "--length=1", "--inv=Laws", "--out-dir=" + awd,
+                             os.path.join(tlc.SPEC, "apalache", "EdgeClassApa.tla")], cwd=awd, stdout=subprocess.PIPE,
+                            stderr=subprocess.STDOUT, text=True, timeout=1800)
+        if "EXITCODE: OK" not in pr.stdout:
+            raise tlc.MachineryError("Apalache check of the classification laws failed:\n" + pr.stdout[-1500:])
+        out.add_cov(apalache_classification_laws="SwapSym/InvSym/Shape hold for all segment lengths 1..10^6 (symbolic)")
+        shutil.rmtree(awd, ignore_errors=True)
     out.assumptions += ["TLC; spec/EdgeClass.tla is my independent reading of the GFA2 text",
                         "segment length 3 stands for every length (interval kinds depend only on 0 / inner / last)"]
 
